@@ -262,11 +262,63 @@ def run(pid, build_replay):
     for kb in range(256, 1025, 32):
         cmds.append(f"deep 3000 {kb}")
         meta.append(("deep", None, f"a 3000-deep reference type on a {kb} KiB stack"))
+    # length fields of the header that promise far more than the input holds (2^40 and 2^62 entries / arguments / fields /
+    # methods / name bytes, a table one entry above the documented limit): an error, with memory that does not follow the
+    # promised count.  Run in a process of their own so that its peak memory can be read.
+    import resource
+    def _leb(n):
+        b = bytearray()
+        while True:
+            x = n & 0x7f
+            n >>= 7
+            b.append(x | (0x80 if n else 0))
+            if not n:
+                return bytes(b)
+    big = []
+    for n in (2 ** 40, 2 ** 62):
+        big += [("argument count", b"DIDL\x00" + _leb(n)), ("type table length", b"DIDL" + _leb(n)),
+                ("record field count", b"DIDL\x01\x6c" + _leb(n)), ("variant field count", b"DIDL\x01\x6b" + _leb(n)),
+                ("function argument count", b"DIDL\x01\x6a" + _leb(n)), ("function result count", b"DIDL\x01\x6a\x00" + _leb(n)),
+                ("function mode count", b"DIDL\x01\x6a\x00\x00" + _leb(n)), ("service method count", b"DIDL\x01\x69" + _leb(n)),
+                ("method name length", b"DIDL\x01\x69\x01" + _leb(n)), ("future entry length", b"DIDL\x01\x5f" + _leb(n))]
+    big.append(("type table length one above the limit", b"DIDL" + _leb(10001) + b"\x6e\x7f" * 10001 + b"\x00"))
+    import tempfile
+    with tempfile.TemporaryFile("w+") as fin, tempfile.TemporaryFile("w+") as fout:
+        fin.write("\n".join(f"rds {m.hex()} X=nat o(nat)" for _, m in big) + "\n")
+        fin.seek(0)
+        pr = subprocess.Popen([exe], stdin=fin, stdout=fout, stderr=subprocess.DEVNULL)
+        _, status, ru = os.wait4(pr.pid, 0)          # resource usage of exactly this process
+        pr.returncode = os.waitstatus_to_exitcode(status)
+        rss_kb = ru.ru_maxrss
+        fout.seek(0)
+        big_outs = [l.strip() for l in fout.read().splitlines()]
+    class _PB:
+        returncode = pr.returncode
+    pb = _PB()
+    big_fail = None
+    if len(big_outs) != len(big):
+        big_fail = ("every oversized header is answered", f"{len(big_outs)} answers for {len(big)} messages (exit {pb.returncode})", big[min(len(big_outs), len(big) - 1)])
+    else:
+        for (what, m), o in zip(big, big_outs):
+            if o != "err":
+                big_fail = ("err", o, (what, m))
+                break
+        if not big_fail and rss_kb > 400 * 1024:
+            big_fail = ("peak memory below 400 MiB for 21 messages of at most 20 KiB", f"{rss_kb} KiB", big[0])
     p = subprocess.run([exe], input="\n".join(cmds) + "\n", capture_output=True, text=True, timeout=1800)
     outs = [l.strip() for l in p.stdout.splitlines()]
     if len(outs) != len(cmds):
         return {"undecided": [f"bounded stand-in: replay produced {len(outs)} lines for {len(cmds)} messages"], "failures": []}
     failures = []
+    if big_fail:
+        exp, got, (what, m) = big_fail
+        cmd = f"rds {m.hex()} X=nat o(nat)"
+        failures.append({
+            "obligation": "bounded-standin::decode::a header that promises more than the input holds is an error with bounded memory", "unit": "bounded-standin",
+            "item": "decoder (header)", "fn": "decode", "kind": "bounded-standin", "file": "rust/candid/src/binary_parser.rs", "line": 0,
+            "source_text": "", "clause": None, "verifier_message": f"{what}: expected {exp}, got {got}",
+            "witness": {"confirmed": True, "function": "candid::IDLArgs::from_bytes_with_types", "input": cmd[:300] + (" ..." if len(cmd) > 300 else ""), "expected": f"{exp}  ({what})",
+                        "got": got, "replay_cmd": f"echo '{cmd}' | {exe}"}})
     npos = sum(1 for k, w_ok, _ in meta if k == "sub" and w_ok)
     for cmd, (kind, want_ok, what), o in zip(cmds, meta, outs):
         got_ok = o == "ok"
@@ -293,6 +345,6 @@ def run(pid, build_replay):
                                                 "type_env.rs replace_empty / is_empty (must leave inhabited types alone)"],
                                   "bound": f"{len([1 for m in meta if m[0] == 'sub'])} seeded messages carrying one function / service reference over environments of 2..4 "
                                            f"definitions ({npos} of them subtypes), each also with up to 6 single-point header corruptions "
-                                           f"({len([1 for m in meta if m[0] == 'hdr'])} ill-formed messages); environments with a cycle through mandatory record fields left out",
+                                           f"({len([1 for m in meta if m[0] == 'hdr'])} ill-formed messages); {len(big)} headers whose length fields promise 2^40 / 2^62 items or one table entry above the limit (error demanded, peak memory of that process {rss_kb} KiB, bound 400 MiB); environments with a cycle through mandatory record fields left out",
                                   "vectors": len(cmds), "disagreements": len(failures), "labelled": "bounded, NOT proved",
                                   "wall_s": round(time.time() - t0, 1)}]}
